@@ -23,6 +23,8 @@ const (
 	// host before (or between) attempts (cluster_manager.go tryConnTimes); that wait is bounded and not covered by the request timers
 	connectWait = 600 * time.Millisecond
 	answerBand  = 15 * time.Millisecond
+	// a scenario during which the test process itself was descheduled for longer than this is not judged on elapsed time
+	disturbedUs = 4000
 )
 
 // statusClass maps what the client saw to the MOSN error it stands for ("" = not a MOSN error status we know).
@@ -73,7 +75,6 @@ func judge(sc *Scenario, res *result) (misses []miss, classes []string) {
 		case "partial-stall":
 			stallExecuted = true
 			if sc.Proto != "Http1" {
-				failureInjected = true // the rest of the byte stream is garbled: decode errors close the connection
 				poisoned = true
 			}
 		}
@@ -164,7 +165,11 @@ func judge(sc *Scenario, res *result) (misses []miss, classes []string) {
 				}
 			case "upstream-failure":
 				if !failureInjected && sc.Special != "no-host" {
-					add(true, "unexplained-status:upstream-failure", "status %d but no reset / connection failure was injected (arrivals %+v)", first.Status, res.Arrivals)
+					sig := "unexplained-status:upstream-failure"
+					if sc.Proto == "Http1" && len(res.Arrivals) >= 2 {
+						sig = "spurious-upstream-failure:Http1:attempt-after-locally-reset-attempt"
+					}
+					add(true, sig, "status %d but no reset / connection failure was injected in any attempt", first.Status)
 				}
 			case "overflow":
 				add(true, "unexplained-status:overflow", "status %d: no resource limit is configured", first.Status)
@@ -236,6 +241,24 @@ func judge(sc *Scenario, res *result) (misses []miss, classes []string) {
 	}
 	if res.Probe == "silent" && first != nil {
 		add(false, "follow-up-silent", "the follow-up exchange on the same connection got no answer within 3 s")
+	}
+
+	// ---- elapsed-time complaints are meaningful only if the test process itself was scheduled on time
+	if res.MaxStallUs > disturbedUs {
+		kept := misses[:0]
+		dropped := false
+		for _, m := range misses {
+			if m.Hard {
+				kept = append(kept, m)
+			} else {
+				dropped = true
+			}
+		}
+		misses = kept
+		if dropped {
+			classes = append(classes, "timing-complaint-dropped:process-was-stalled")
+		}
+		classes = append(classes, "disturbed")
 	}
 
 	// ---- classes
